@@ -2,8 +2,10 @@
 
 Contract modelled (validated against the installed Ray by tools/ray_conformance.py):
   R1 the ready list of `wait` preserves input order and has at most `num_returns` elements;
-  R2 if at call time at least `num_returns` refs are complete, the first `num_returns` complete refs in
-     input order are returned (NOT necessarily a superset of an earlier answer);
+  R2 if at call time at least `num_returns` refs are complete, exactly `num_returns` of the complete refs
+     are returned -- WHICH ones is up to Ray (observed with Ray 2.48: refs whose values are already local
+     are preferred, e.g. complete {0,1,2}, num_returns=2 -> [0,2]); in particular an answer need not be a
+     superset of an earlier answer, nor a prefix of the complete refs in input order;
   R3 otherwise the call blocks until `num_returns` are complete, or the timeout fires and fewer are
      returned.
 Tasks are evaluated eagerly at submission on a pickled copy of their arguments (Ray serialises
@@ -132,7 +134,16 @@ class FakeRay:
             self.timeouts += 1
         self.completed.update(S)
         ready_all = [r for r in refs if r.tid in self.completed]
-        ready = ready_all[:num_returns]
+        if len(ready_all) > num_returns:
+            # R2: Ray picks any num_returns of the complete refs (listed in input order); default = the first ones
+            subsets = list(itertools.combinations(range(len(ready_all)), num_returns))
+            dflt = tuple(range(num_returns))
+            subsets.sort(key=lambda t: (len(set(t) - set(dflt)), t))
+            c2 = self.chooser.choose(len(subsets), costs=[len(set(t) - set(dflt)) for t in subsets],
+                                     label=f"pick({num_returns} of {len(ready_all)})")
+            ready = [ready_all[i] for i in subsets[c2]]
+        else:
+            ready = ready_all
         not_ready = [r for r in refs if r not in ready]
         self.wait_log.append((num_returns, [r.tid for r in ready], is_timeout, refs[0].tid))
         return ready, not_ready
